@@ -26,7 +26,8 @@ func genWCfg(r *Rng, kinds []string) WCfg {
 	case "config-default-order":
 		c.Kind, c.MaxB, c.Timeout, c.Fifo, c.Evict = 3, r.Pick(1, 2, 3, 5), r.Pick(3_000_000, 10_000_000, 50_000_000), false, r.Bool(50)
 	case "config":
-		c.Kind, c.MaxB, c.Timeout, c.Fifo, c.Evict = 3, r.Pick(1, 2, 3, 5), r.Pick(3_000_000, 10_000_000, 50_000_000), r.Bool(50), r.Bool(50)
+		// a negative backlog timeout means "no backlog timer": the only ways out of the backlog are a grant or (with eviction) a cancellation
+		c.Kind, c.MaxB, c.Timeout, c.Fifo, c.Evict = 3, r.Pick(1, 2, 3, 5), r.Pick(-1, 3_000_000, 10_000_000, 50_000_000), r.Bool(50), r.Bool(50)
 	case "pool", "fixedpool":
 		switch r.Intn(3) {
 		case 0:
@@ -339,8 +340,10 @@ func TestC13(t *testing.T) {
 				var bound int64 = -1
 				switch w.Cfg.Kind {
 				case 3:
-					bound = c.arrival + w.Cfg.Timeout
-					if ca, ok := cancelledAt[c]; ok && w.Cfg.Evict && ca < bound {
+					if w.Cfg.Timeout > 0 {
+						bound = c.arrival + w.Cfg.Timeout
+					}
+					if ca, ok := cancelledAt[c]; ok && w.Cfg.Evict && (bound < 0 || ca < bound) {
 						bound = ca
 					}
 				case 2:
@@ -366,8 +369,10 @@ func TestC13(t *testing.T) {
 				var bound int64 = -1
 				switch w.Cfg.Kind {
 				case 3:
-					bound = c.arrival + w.Cfg.Timeout
-					if ca, ok := cancelledAt[c]; ok && w.Cfg.Evict && ca < bound {
+					if w.Cfg.Timeout > 0 {
+						bound = c.arrival + w.Cfg.Timeout
+					}
+					if ca, ok := cancelledAt[c]; ok && w.Cfg.Evict && (bound < 0 || ca < bound) {
 						bound = ca
 					}
 				case 2:
